@@ -931,6 +931,7 @@ class Env:
         self.pos = 0
         self.trace: list = []  # decisions actually taken on this path
         self.solver = engine.solver
+        self._in_push = False
         self.model = None  # a model of the current path condition (or None = unknown)
         self.pc_len = 0
         self.inputs: dict = {}  # name -> (term, lo, hi) declared symbolic scalars
@@ -1079,6 +1080,17 @@ class Env:
             self._model_src = self.solver
             if r == z3.unknown:
                 self._inc_failed += 1
+                self._unknown_reason = self.solver.reason_unknown()
+                if not self._in_push:
+                    # never reuse an incremental solver whose check was interrupted by its time
+                    # limit: rebuild it from the asserted path condition
+                    fresh = z3.SolverFor("QF_UFBV")
+                    fresh.set("timeout", min(eng.timeout_ms, eng.incremental_timeout_ms))
+                    for a in self.solver.assertions():
+                        fresh.add(a)
+                    self.solver = fresh
+                    eng.solver = fresh
+                    eng.rebuilds += 1
         if r == z3.unknown:
             s2 = z3.Solver()
             s2.set("timeout", max(eng.timeout_ms, eng.vc_timeout_ms) if long else eng.timeout_ms)
@@ -1194,6 +1206,7 @@ class Env:
             return v
         vals = []
         self.solver.push()
+        self._in_push = True
         try:
             while True:
                 r = self._check()
@@ -1209,6 +1222,7 @@ class Env:
                     raise EngineUnsupported("case split over more than %d values" % SPLIT_CAP)
                 self.solver.add(x.t != bv)
         finally:
+            self._in_push = False
             self.solver.pop()
         if not vals:
             raise PathPruned()
@@ -1269,6 +1283,23 @@ class Env:
             self._model_src = s3
             eng.queries += 1
         eng.solver_vcs += 1
+        if r == z3.sat and self._model_src is self.solver:
+            # a counterexample from the incremental core is confirmed by a fresh one-shot solver
+            # before it is believed (an interrupted incremental core has produced wrong answers)
+            s4 = z3.Solver()
+            s4.set("timeout", 3 * max(eng.timeout_ms, eng.vc_timeout_ms))
+            for a_ in self.solver.assertions():
+                s4.add(a_)
+            s4.add(z3.Not(cond))
+            r4 = s4.check()
+            eng.queries += 1
+            if r4 == z3.sat:
+                self._model_src = s4
+            elif r4 == z3.unsat:
+                eng.sat_not_confirmed += 1
+                r = z3.unsat
+            else:
+                r = z3.unknown
         if r != z3.unknown and eng.xcheck_every and eng.solver_vcs % eng.xcheck_every == 1 % eng.xcheck_every:
             self._xcheck(label, cond, "unsat" if r == z3.unsat else "sat")
         if r == z3.unsat:
@@ -1484,6 +1515,8 @@ class Engine:
         self.queue: list = []
         self.solver_time = 0.0
         self.fallbacks = 0
+        self.rebuilds = 0
+        self.sat_not_confirmed = 0
         self.queries = 0
         self.vcs = 0
         self.paths = 0
